@@ -38,24 +38,39 @@ Section WF.
   Definition var_ok (scopes : list (list kind)) (kd : kind) (v : ivar) : Prop :=
     fst v < length scopes /\ scope_kind scopes (length scopes - fst v) (snd v) = Some kd.
 
+  (** a type variable: any of the three type kinds *)
+  Definition tvar_ok (scopes : list (list kind)) (v : ivar) : Prop :=
+    fst v < length scopes /\
+    exists kd, scope_kind scopes (length scopes - fst v) (snd v) = Some kd /\ is_ty_kind kd = true.
+
+  Definition wf_konst (scopes : list (list kind)) (c : ikonst) : Prop :=
+    match c with CVar v => var_ok scopes KConst v | CVal _ => True end.
+
   Definition wf_lt (scopes : list (list kind)) (l : ilt) : Prop :=
     match l with LVar v => var_ok scopes KLt v | _ => True end.
 
   Fixpoint wf_ty (scopes : list (list kind)) (t : ity) {struct t} : Prop :=
     match t with
-    | TVar v => var_ok scopes KTy v
-    | TAdt id args => struct_kinds id = Some (map garg_kind args) /\ all (wf_garg scopes) args
+    | TVar v => tvar_ok scopes v
+    | TAdt id args =>
+        (exists ks, struct_kinds id = Some ks /\ map kclass ks = map garg_kind args) /\ all (wf_garg scopes) args
     | TScalar _ => True
     | TTuple ts => all (wf_ty scopes) ts
     | TRef _ l t => wf_lt scopes l /\ wf_ty scopes t
     | TRaw _ t | TSlice t => wf_ty scopes t
+    | TArray t c => wf_ty scopes t /\ wf_konst scopes c
     | TStr | TNever => True
     end
   with wf_garg (scopes : list (list kind)) (a : igarg) {struct a} : Prop :=
-    match a with GTy t => wf_ty scopes t | GLt l => wf_lt scopes l end.
+    match a with
+    | GTy t => wf_ty scopes t
+    | GLt l => wf_lt scopes l
+    | GCVal _ => True
+    | GCVar v => var_ok scopes KConst v
+    end.
 
   Definition wf_trait_ref (scopes : list (list kind)) (tr : nat) (args : list igarg) : Prop :=
-    trait_kinds tr = Some (map garg_kind args) /\ all (wf_garg scopes) args.
+    (exists ks, trait_kinds tr = Some ks /\ map kclass ks = map garg_kind args) /\ all (wf_garg scopes) args.
 
   Definition wf_wc (scopes : list (list kind)) (w : iwc) : Prop :=
     match w with
@@ -154,20 +169,35 @@ Section Vars.
   Variable in_trait : bool.
 
   Lemma r_var_u_var scopes v :
-    var_ok scopes KTy v -> r_var in_trait scopes (u_var in_trait (length scopes) v) = Some v.
+    tvar_ok scopes v -> r_var in_trait scopes (u_var in_trait (length scopes) v) = Some v.
   Proof.
-    destruct v as [d i]. unfold var_ok, u_var. cbn [fst snd]. intros [Hd Hk].
+    destruct v as [d i]. unfold tvar_ok, u_var. cbn [fst snd]. intros [Hd [kd [Hk Hty]]].
     destruct (in_trait && Nat.eqb (length scopes - d) 1 && Nat.eqb i 0)%bool eqn:E.
     - apply andb_true_iff in E. destruct E as [E Ei]. apply andb_true_iff in E. destruct E as [Et Ed].
       apply Nat.eqb_eq in Ei, Ed. subst i. cbn [r_var]. rewrite Et.
       destruct scopes as [|s r]; [cbn in Hd; lia|]. f_equal. f_equal. cbn [length] in *. lia.
-    - cbn [r_var]. rewrite E. rewrite Hk. f_equal. f_equal. lia.
+    - cbn [r_var]. rewrite E. rewrite Hk, Hty. f_equal. f_equal. lia.
   Qed.
 
   Lemma r_lt_u_lt scopes l : wf_lt scopes l -> r_lt scopes (u_lt (length scopes) l) = Some l.
   Proof.
     destruct l as [[d i]| |]; cbn; try reflexivity.
     unfold var_ok. cbn [fst snd]. intros [Hd Hk]. rewrite Hk. f_equal. f_equal. f_equal. lia.
+  Qed.
+
+  Lemma r_konst_u_konst scopes c : wf_konst scopes c -> r_konst scopes (u_konst (length scopes) c) = Some c.
+  Proof.
+    destruct c as [[d i]|n]; cbn; try reflexivity.
+    unfold var_ok. cbn [fst snd]. intros [Hd Hk]. rewrite Hk. f_equal. f_equal. f_equal. lia.
+  Qed.
+
+  Lemma bare_const_u_ty names p scopes t :
+    wf_ty p scopes t -> bare_const scopes (u_ty names in_trait (length scopes) t) = None.
+  Proof.
+    destruct t; cbn [u_ty bare_const]; try reflexivity.
+    destruct v as [d i]. unfold tvar_ok, u_var. cbn [fst snd wf_ty]. intros [Hd [kd [Hk Hty]]].
+    destruct (in_trait && Nat.eqb (length scopes - d) 1 && Nat.eqb i 0)%bool; [reflexivity|].
+    cbn [fst snd] in Hk. rewrite Hk. destruct kd; try reflexivity; discriminate.
   Qed.
 End Vars.
 
@@ -210,16 +240,13 @@ Section Types.
     | TVar _ | TScalar _ => 1
     | TAdt _ args => S (list_sum (map isize_garg args))
     | TTuple ts => S (list_sum (map isize_ty ts))
-    | TRef _ _ t | TRaw _ t | TSlice t => S (isize_ty t)
+    | TRef _ _ t | TRaw _ t | TSlice t | TArray t _ => S (isize_ty t)
     | TStr | TNever => 1
     end
-  with isize_garg (a : igarg) : nat := match a with GTy t => S (isize_ty t) | GLt _ => 1 end.
+  with isize_garg (a : igarg) : nat := match a with GTy t => S (isize_ty t) | _ => 1 end.
 
   Lemma in_list_sum A (f : A -> nat) x l : In x l -> f x <= list_sum (map f l).
   Proof. unfold list_sum. induction l; cbn; [tauto|]. intros [->|H]; [lia|]. apply IHl in H. lia. Qed.
-
-  Lemma garg_kind_u k a : garg_kind (u_garg names in_trait k a) = garg_kind a.
-  Proof. destruct a; reflexivity. Qed.
 
   Lemma types_resolve n :
     (forall t scopes, isize_ty t <= n -> wf_ty p scopes t ->
@@ -235,14 +262,14 @@ Section Types.
       - pose proof (in_list_sum _ isize_garg a args Ha). lia.
       - eapply all_In; eauto. }
     split.
-    - intros t scopes Hs Hw. destruct t as [v|id args|s|ts|m l t|m t|t| |]; cbn [isize_ty] in Hs; cbn [wf_ty] in Hw; cbn [u_ty r_ty].
+    - intros t scopes Hs Hw. destruct t as [v|id args|s|ts|m l t|m t|t|t c| |]; cbn [isize_ty] in Hs; cbn [wf_ty] in Hw; cbn [u_ty r_ty].
       + rewrite r_var_u_var by exact Hw. reflexivity.
-      + destruct Hw as [Hk Ha]. rewrite (find_struct id _ Hk). cbn [obind].
+      + destruct Hw as [[ks [Hk Hks]] Ha]. rewrite (find_struct id _ Hk). cbn [obind].
         change ((fix go (l : list agarg) : option (list igarg) :=
                    match l with [] => Some [] | x :: r => ' y <- r_garg structs in_trait scopes x;; ' ys <- go r;; Some (y :: ys) end)
                   (map (u_garg names in_trait (length scopes)) args))
           with (omap (r_garg structs in_trait scopes) (map (u_garg names in_trait (length scopes)) args)).
-        rewrite Hargs; [|lia|exact Ha]. cbn [obind h_kinds h_id]. rewrite kinds_eqb_refl. reflexivity.
+        rewrite Hargs; [|lia|exact Ha]. cbn [obind h_kinds h_id]. rewrite Hks, kinds_eqb_refl. reflexivity.
       + reflexivity.
       + change ((fix go (l : list aty) : option (list ity) :=
                    match l with [] => Some [] | x :: r => ' y <- r_ty structs in_trait scopes x;; ' ys <- go r;; Some (y :: ys) end)
@@ -255,11 +282,27 @@ Section Types.
         rewrite IHt; [reflexivity|lia|exact Ht].
       + rewrite IHt; [reflexivity|lia|exact Hw].
       + rewrite IHt; [reflexivity|lia|exact Hw].
+      + destruct Hw as [Ht Hc]. rewrite IHt; [|lia|exact Ht]. cbn [obind]. rewrite r_konst_u_konst by exact Hc. reflexivity.
       + reflexivity.
       + reflexivity.
-    - intros a scopes Hs Hw. destruct a as [t|l]; cbn [isize_garg] in Hs; cbn [wf_garg] in Hw; cbn [u_garg r_garg].
-      + rewrite IHt; [reflexivity|lia|exact Hw].
-      + rewrite r_lt_u_lt by exact Hw. reflexivity.
+    - intros a scopes Hs Hw. destruct a as [t|l|nn|v]; cbn [isize_garg] in Hs.
+      + change (wf_ty p scopes t) in Hw.
+        change (match bare_const scopes (u_ty names in_trait (length scopes) t) with
+                | Some v => Some (GCVar v : igarg)
+                | None => ' t' <- r_ty structs in_trait scopes (u_ty names in_trait (length scopes) t);; Some (GTy t' : igarg)
+                end = Some (GTy t)).
+        rewrite (bare_const_u_ty in_trait names p scopes t Hw). rewrite IHt; [reflexivity|lia|exact Hw].
+      + change (wf_lt scopes l) in Hw.
+        change (' l' <- r_lt scopes (u_lt (length scopes) l);; Some (GLt l' : igarg) = Some (GLt l)).
+        rewrite r_lt_u_lt by exact Hw. reflexivity.
+      + reflexivity.
+      + change (var_ok scopes KConst v) in Hw.
+        change (match bare_const scopes (TVar (AV (length scopes - fst v) (snd v))) with
+                | Some v' => Some (GCVar v' : igarg)
+                | None => ' t' <- r_ty structs in_trait scopes (TVar (AV (length scopes - fst v) (snd v)));; Some (GTy t' : igarg)
+                end = Some (GCVar v)).
+        destruct v as [d i]. unfold var_ok in Hw. cbn [fst snd] in *. destruct Hw as [Hd Hk].
+        cbn [bare_const]. rewrite Hk. f_equal. f_equal. f_equal. lia.
   Qed.
 
   Lemma r_ty_u_ty scopes t : wf_ty p scopes t -> r_ty structs in_trait scopes (u_ty names in_trait (length scopes) t) = Some t.
@@ -277,8 +320,8 @@ Section Types.
     wf_trait_ref p scopes tr args ->
     r_trait_ref structs traits in_trait scopes (name_of names tr) (map (u_garg names in_trait (length scopes)) args) = Some (tr, args).
   Proof.
-    intros [Hk Ha]. unfold r_trait_ref. rewrite (find_trait tr _ Hk). cbn [obind].
-    rewrite r_gargs_u by exact Ha. cbn [obind h_kinds h_id]. rewrite kinds_eqb_refl. reflexivity.
+    intros [[ks [Hk Hks]] Ha]. unfold r_trait_ref. rewrite (find_trait tr _ Hk). cbn [obind].
+    rewrite r_gargs_u by exact Ha. cbn [obind h_kinds h_id]. rewrite Hks, kinds_eqb_refl. reflexivity.
   Qed.
 
   Lemma r_wc_u_wc scopes w :
